@@ -3,6 +3,9 @@
 package gjkr
 
 import (
+	"context"
+
+	"github.com/ipfs/go-log/v2"
 	"github.com/keep-network/keep-core/pkg/net"
 	"github.com/keep-network/keep-core/pkg/protocol/group"
 )
@@ -119,4 +122,79 @@ func VerifC12NewMessage(
 		return &MisbehavedEphemeralKeysMessage{senderID: senderID, sessionID: sessionID}
 	}
 	return nil
+}
+
+// VerifC12NewInitiatedReceiver builds the accusation-receiving state of the
+// given kind ("accuse-init": commitments verification, phase 4; "paccuse-init":
+// points validation, phase 8), hands it previous-phase messages from the given
+// members (carrying only the sender index and the session identifier) and runs
+// the state's own Initiate, which marks the silent members as inactive and
+// records the members accusations are accepted from.
+func VerifC12NewInitiatedReceiver(
+	ctx context.Context,
+	kind string,
+	logger log.StandardLogger,
+	channel net.BroadcastChannel,
+	self group.MemberIndex,
+	grp *group.Group,
+	membershipValidator *group.MembershipValidator,
+	sessionID string,
+	activeInPreviousPhase []group.MemberIndex,
+) (*VerifC12Receiver, error) {
+	core := &memberCore{
+		logger:              logger,
+		ID:                  self,
+		group:               grp,
+		membershipValidator: membershipValidator,
+		evidenceLog:         newDkgEvidenceLog(),
+		sessionID:           sessionID,
+	}
+	cvm := &CommitmentsVerifyingMember{
+		CommittingMember: &CommittingMember{
+			SymmetricKeyGeneratingMember: &SymmetricKeyGeneratingMember{
+				EphemeralKeyPairGeneratingMember: &EphemeralKeyPairGeneratingMember{
+					LocalMember: &LocalMember{memberCore: core},
+				},
+			},
+		},
+	}
+
+	switch kind {
+	case "accuse-init":
+		st := &commitmentsVerificationState{channel: channel, member: cvm}
+		for _, sender := range activeInPreviousPhase {
+			st.previousPhaseSharesMessages = append(
+				st.previousPhaseSharesMessages,
+				&PeerSharesMessage{senderID: sender, sessionID: sessionID},
+			)
+			st.previousPhaseCommitmentsMessages = append(
+				st.previousPhaseCommitmentsMessages,
+				&MemberCommitmentsMessage{senderID: sender, sessionID: sessionID},
+			)
+		}
+		if err := st.Initiate(ctx); err != nil {
+			return nil, err
+		}
+		return &VerifC12Receiver{st.Receive, func() int { return len(st.phaseAccusationsMessages) }}, nil
+	case "paccuse-init":
+		sm := &SharingMember{
+			QualifiedMember: &QualifiedMember{
+				SharesJustifyingMember: &SharesJustifyingMember{
+					CommitmentsVerifyingMember: cvm,
+				},
+			},
+		}
+		st := &pointsValidationState{channel: channel, member: sm}
+		for _, sender := range activeInPreviousPhase {
+			st.previousPhaseMessages = append(
+				st.previousPhaseMessages,
+				&MemberPublicKeySharePointsMessage{senderID: sender, sessionID: sessionID},
+			)
+		}
+		if err := st.Initiate(ctx); err != nil {
+			return nil, err
+		}
+		return &VerifC12Receiver{st.Receive, func() int { return len(st.phaseMessages) }}, nil
+	}
+	return nil, nil
 }
